@@ -1142,7 +1142,14 @@ impl<E: Effect> Environment<E> {
         if let Some(pending) = self.pending_awaits.get_mut(&awaiter) {
             // This is part of an initial await - collect the response
             if let Some(worker_id) = sender_worker_id {
-                pending.responses.insert(worker_id, results.clone());
+                // Merge rather than replace: a worker that has already given its initial answer
+                // may report a later completion while another worker's answer is still
+                // outstanding, and replacing would drop the facts of its earlier answer.
+                pending
+                    .responses
+                    .entry(worker_id)
+                    .or_default()
+                    .extend(results.clone());
                 pending.expected_workers.remove(&worker_id);
 
                 // Check if all workers have responded
